@@ -50,7 +50,8 @@ func (g *Gen) recentSess() string {
 }
 
 func NewGen(seed int64) *Gen {
-	return &Gen{R: rand.New(rand.NewSource(seed)), lastKVIdx: map[string]uint64{}}
+	// raft indexes of client commands never start at 1 (bootstrap configuration entries come first)
+	return &Gen{R: rand.New(rand.NewSource(seed)), lastKVIdx: map[string]uint64{}, Idx: 10}
 }
 
 var (
